@@ -308,6 +308,23 @@ func c15Inject(c *Ctx, spec *gen.TableSpec, skipable bool, sample bool) {
 				if w.after == 0 {
 					c.Rec.Count("injections_after_which_writing_stopped_at_once", 1)
 				}
+				// "output stops there" has no end date: the owner keeps its destination, the program goes on rendering
+				// elsewhere (the same table again, through the same entry point, into a healthy destination) - and the
+				// destination that failed is not written to again by anybody
+				if (k+mode+kind)%3 == 0 || k == n {
+					callsThen, acceptedThen := w.calls, len(w.accepted)
+					healthy := &scriptWriter{}
+					Guard(func() { rd.to(build(), healthy) })
+					c.Rec.Count("later_healthy_renders_after_a_failed_one", 1)
+					if w.calls != callsThen || len(w.accepted) != acceptedThen {
+						c.Rec.Violate("written-to-after-the-failed-render-returned:"+cls, fmt.Sprintf("%s: write call %d of %d failed (%s) and RenderTo returned %v; during a LATER render of the same table into another, healthy destination the failed destination received %d more Write calls (%d more bytes accepted): %q", rd.name, k, n, c15ModeNames[mode], err, w.calls-callsThen, len(w.accepted)-acceptedThen, w.accepted[acceptedThen:]), cs)
+						return
+					}
+					if !bytes.Equal(healthy.accepted, ref.accepted) {
+						c.Rec.Violate("later-render-differs-after-a-failed-one:"+cls, fmt.Sprintf("%s: after a render whose write call %d of %d failed (%s), the next render of the same table into a healthy destination wrote %q, fault-free output is %q", rd.name, k, n, c15ModeNames[mode], healthy.accepted, ref.accepted), cs)
+						return
+					}
+				}
 			}
 		}
 		if sample && n > 3 && c.Rec.WantSample() {
